@@ -39,6 +39,16 @@ CLAIMS = {
              "I_j + G_(j+1) + not I_(j+1) must be refuted by a run the Lean machine accepts (C09_path_from_splits). Partial: no "
              "algorithm-level theorem for the path property of labelled interpolation systems is proved.",
         design_ref="5 C09"),
+    "C29": dict(
+        technique="Lean 4 proof (checker soundness independent of the declared logic: accepted unsat traces refute the roots, validated models satisfy the assertions) tied by certification of every answer on out-of-logic scripts",
+        text="Theorems: C29_unsat_certified (Smt.unsat_sound, stated over the SMT-LIB semantics of every readable term, Int symbols "
+             "integral) and C29_sat_certified. Tie: 10 families of scripts that are well-sorted but outside their declared logic "
+             "(sums, scaled variables, three variables, single variables under QF_IDL/QF_RDL/QF_UFIDL; non-linear products and "
+             "division; Int symbols under QF_LRA, Real symbols under QF_LIA, mixed sorts; arithmetic under QF_UF; div/mod on reals), "
+             "incremental, with get-model after every check: every unsat must be accepted by the Lean machine with kernel-checked "
+             "theory lemmas, every sat must come with a model the Lean evaluator validates on all accepted assertions; rejections "
+             "are counted, abnormal termination is a violation.",
+        design_ref="5 C29"),
     "C13": dict(
         technique="Lean 4 proof (preprocessing rewrites are equivalences / conservative extensions for every term and interpretation) tied by per-check comparison of assertions and engine roots with Lean-validated models",
         text="Theorems: substitution by equal-valued targets keeps every value; variable elimination by a definition is a "
